@@ -85,7 +85,7 @@ def get_qiskit_noise_dict(noise_model):
     for gate, noises in noise_model._quantum_errors.items():
         for qiskit_gate in __MAPPING_GATES_QISKIT[gate]:
             if qiskit_gate not in qnd:
-                qnd[qiskit_gate] = noises
+                qnd[qiskit_gate] = list(noises)
             else:
                 noise_types = [nt for nt, np in qnd[qiskit_gate]]
                 for noise in noises:
